@@ -630,6 +630,10 @@ C13_OnlyOwnStep ==
               /\ ProcImage(procs'[q]) = <<"started">>
               /\ ParentOfProc(procs'[q]).pid = own
           \/ procs[q].st # "absent" /\ procs[q].gone /\ ProcImage(procs'[q]) = <<"started">>
+    \* (observed runs: the environment of another process, where it is known before and after)
+    /\ \A q \in Pids \ {own} :
+          (procs[q].st # "absent" /\ procs'[q].st # "absent" /\ procs[q].env # "" /\ procs'[q].env # "")
+             => procs'[q].env = procs[q].env
     /\ \A x \in queue' \ queue : x[1] = own
     /\ \A x \in queue \ queue' : x[1] = own
     /\ \A i \in DOMAIN lastOut' : lastOut'[i].pid = own
